@@ -204,6 +204,7 @@ def gen_case(ctx, r, model, maxlen, allowed=None, avoid=()):
         ctx.hist("n_mod_m", "default" if m == 0 else ("divides" if n % m == 0 else "remainder"))
         return emit(f"new {slot} {m} {base} " + " ".join(map(str, labels)))
 
+    emit("reset")                       # histories are self-contained: no object survives from the previous one
     st = new(0)
     if st is None:
         return ops
